@@ -430,7 +430,8 @@ func buildC11(tier string) sim.Scenario {
 					spelled := []string{"/." + path, "/" + path}[tp.Choose(2)]
 					for _, pat := range strings.Split(u.pull, ";") {
 						if strings.HasSuffix(pat, "/*") && len(pat) > 2 {
-							spelled = strings.TrimSuffix(pat, "/*") + "/.." + path
+							dir := strings.TrimSuffix(pat, "/*")
+							spelled = dir + strings.Repeat("/..", strings.Count(dir, "/")) + path // one ".." per segment of the directory
 						}
 					}
 					base = "rtsp://10.9.0.1:554" + spelled
